@@ -36,7 +36,10 @@
 // merely must not be yielded any more -- observationally the same thing since
 // the node never comes back.
 //
-// Oracle after every step: containsNode; node iteration (each live node once,
+// Oracle after every step (an exploration run checks after its LAST step, all
+// its proper prefixes were checked as runs of their own on the level before;
+// a replay checks after each step -- see run()):
+// containsNode; node iteration (each live node once,
 // size(), std::distance); for each live node the multiset of (dst,data) from
 // edge_begin..edge_end, edges(n), out_edges(n) and (in/out) in_edges(n); no
 // edge to a node that is not live; sortedness by destination handle for the
